@@ -14,6 +14,8 @@ Deciding monitors
       exact inverse round trip.
   Histories at fixed array sizes on the shared executors (every step judged by M1, which knows nothing of the process
   history), repeat / aliasing laws (same argument objects again; containers; memory layouts), both precisions and mixed.
+  Pass 4: the same contracts / laws under the numpy.fft backend (wl_backend), and on objects RETURNED by pad2d / crop (out of
+  place), copy, arithmetic and to_fpm_and_back(return_more=True) with the harness' own wavelength / spacing (wl_chains).
 """
 import math
 
@@ -73,6 +75,7 @@ REQUIRED = ['focus_fixed_sampling.field-at-requested-coordinates', 'unfocus_fixe
 RTOL = 1e-9
 CTX = None
 CUR = None      # descriptor of the workload case currently being driven (merged into contract witnesses)
+KEYTAG = ''     # pass 4: context label appended to every mechanism key while a context workload runs ('/backend:numpy.fft', '/after:pad2d(arg:inplace=False)')
 
 
 # ------------------------------------------------------------------------------------------ helpers
@@ -109,10 +112,10 @@ def fixed_key(route, method, in_shape, out_shape, shifted):
     is czt2 on the conjugate)."""
     g = geom_label(route, method, in_shape, out_shape)
     if 'even->odd' in g:
-        return f'C03/fixed-sampling/czt/{g}'
+        return f'C03/fixed-sampling/czt/{g}' + KEYTAG
     if g == 'nonsquare':
-        return f'C03/{route}_fixed_sampling/nonsquare'
-    return f'C03/{route}_fixed_sampling/{method}/square/' + ('shift!=0' if shifted else 'shift=0')
+        return f'C03/{route}_fixed_sampling/nonsquare' + KEYTAG
+    return f'C03/{route}_fixed_sampling/{method}/square/' + ('shift!=0' if shifted else 'shift=0') + KEYTAG
 
 
 def _what(route, method, g):
@@ -138,6 +141,8 @@ def _track(monitor, err, scale):
 def _merge(desc):
     d = dict(CUR or {})
     d.update(desc)
+    if KEYTAG:
+        d['context'] = KEYTAG
     return d
 
 
@@ -257,7 +262,7 @@ def _check_fft(route, self, efl, Q, result, data_before):
     out = np.asarray(result.data)
     desc = _merge({'fn': f'Wavefront.{route}', 'in_shape': a.shape, 'dx': float(self.dx), 'wavelength': float(self.wavelength),
                    'efl': float(efl), 'Q': Q, 'out_shape': out.shape, 'reported_dx': float(result.dx)})
-    key = f'C03/Wavefront.{route}/fft/{_qclass(Q)}'
+    key = f'C03/Wavefront.{route}/fft/{_qclass(Q)}' + KEYTAG
     if not np.any(a):
         CTX.skip('zero-field')
         return
@@ -473,6 +478,8 @@ def _run(ctx):
     timed('special', wl_special, ctx)
     timed('scale-units', wl_scale_units, ctx)
     timed('sizes', wl_sizes, ctx)
+    timed('backend', wl_backend, ctx)
+    timed('chains', wl_chains, ctx)
     ctx.note('workload_seconds(first shard)', secs)
     _clear_caches()
 
@@ -686,7 +693,7 @@ def _fixed_focus_case(ctx, P, rng, icls, ocls, method, scls, field, hi_in, hi_ou
     shp = draw_shape(rng, icls, 4, hi_in)
     seed = int(rng.integers(2**31 - 1))
     use_wf = bool(k % 2)
-    cls = f'focus:{icls}->{ocls}:{method}:shift={scls}:{"tilt" if field == "point" else "random"}'
+    cls = f'focus:{icls}->{ocls}:{method}:shift={scls}:{"tilt" if field == "point" else "random"}' + KEYTAG.replace('/', ':')
     if field == 'random':
         crit = wvl * efl / (max(shp) * dx)
         odx = crit * logu(rng, 0.2, 3.0)
@@ -797,7 +804,7 @@ def _raise_what(method, scls):
 def _raise_key(method, key, scls):
     """Key under which an exception escaping the call is reported (ctx.guard appends /raises:<Type>)."""
     if method == 'czt' and scls != '0':
-        return 'C03/fixed-sampling/czt/shift!=0'
+        return 'C03/fixed-sampling/czt/shift!=0' + KEYTAG
     return key
 
 
@@ -815,7 +822,7 @@ def _fixed_unfocus_case(ctx, P, rng, icls, ocls, method, scls, field, hi_in, hi_
     shift = (s[0] * dx, s[1] * dx)                        # units of the output (pupil) spacing
     seed = int(rng.integers(2**31 - 1))
     use_wf = bool(k % 2)
-    cls = f'unfocus:{icls}->{ocls}:{method}:shift={scls}:{"spot" if field == "point" else "random"}'
+    cls = f'unfocus:{icls}->{ocls}:{method}:shift={scls}:{"spot" if field == "point" else "random"}' + KEYTAG.replace('/', ':')
     desc = {'wl': 'fixed', 'route': 'unfocus', 'class': cls, 'shape': fshape, 'samples': pshape, 'method': method, 'wavelength': wvl,
             'efl': efl, 'focal_dx': fdx, 'pupil_dx': dx, 'shift_samples': s, 'seed': seed, 'api': 'Wavefront' if use_wf else 'function'}
     key = fixed_key('unfocus', method, fshape, pshape, scls != '0')
@@ -1647,6 +1654,314 @@ def wl_sizes(ctx):
                     (w.focus if route == 'focus' else w.unfocus)(efl, Q)
     CUR = None
     _clear_caches()
+
+
+# ------------------------------------------------------------------------------------------ hardening pass 4: classes M / N
+RULE = RULE + ('.  Hardening pass 4 -- class N (backend configuration): the fixed-sampling class grid (both routes, all input / output classes, shift none / int / '
+               'frac, random fields and tilted pupils / displaced spots, function and Wavefront form; three czt cases for one mdft), to_fpm_and_back (function, and '
+               'Wavefront form with return_more=True) and Wavefront.focus / unfocus are repeated with prysm.mathops.fft._srcmodule = numpy.fft (no next_fast_len '
+               'there: the power-of-two fallback sizes the chirp-Z convolution; m+M-1 is almost never a power of two on these sizes) and judged by the same '
+               'contracts / laws.  Class M (optional arguments, metadata consumed downstream): a Wavefront whose wavelength / dx the harness chose goes through '
+               '1..2 metadata-preserving operations -- pad2d(Q | out_shape=, inplace=False | True), crop(inplace=False | True), copy(), * ndarray, * / + Wavefront '
+               '-- and the RETURNED object is then propagated by a different routine (focus, focus_fixed_sampling mdft / czt with and without shift, unfocus, '
+               'unfocus_fixed_sampling; also pupil -> focus -> crop -> unfocus and the three Wavefronts of to_fpm_and_back(return_more=True)); that later result '
+               'is judged by the module\'s contracts evaluated with the HARNESS\' wavelength / spacing (not the object\'s), and a tilted pupil must still peak at '
+               'k lambda f / D in the coordinates the final result reports')
+ASSUMPTIONS = ASSUMPTIONS + [
+    'pad2d / crop / copy / arithmetic with a compatible operand do not change the plane, the sample spacing or the wavelength of a Wavefront (their docstrings: '
+    '"wavefront with padded data", "cropped wavefront"); the samples of the intermediate object are taken as they are (centring is C04), only its metadata is at stake',
+    'numpy.fft is a supported FFT backend (mathops documents swapping _srcmodule; established on /repo @ 66c5405: every route holds under it); float32 data under '
+    'numpy.fft is judged at the same single-precision tolerances',
+]
+REQUIRED = REQUIRED + ['backend.numpy-fft', 'chain.metadata-consumed-downstream']
+
+
+def wl_backend(ctx):
+    """Class N: every FFT / chirp-Z based route again under the numpy.fft backend (restored afterwards), same oracles."""
+    global CUR, KEYTAG
+    import numpy.fft as npfft
+    from prysm import propagation as P
+    from ..util import fft_backend
+    _clear_caches()
+    KEYTAG = '/backend:numpy.fft'
+    try:
+        with fft_backend(npfft):
+            k = -1
+            done = 0
+            for rnd in range(ctx.pick(2, 60)):
+                hi_in, hi_out = ((16, 48), (33, 96))[min(rnd, 1)] if rnd < 30 else (64, 192)
+                for route in ('focus', 'unfocus'):
+                    for icls in IN_CLASSES:
+                        for ocls in OUT_CLASSES:
+                            for scls in SHIFTS:
+                                for field in ('random', 'point'):
+                                    k += 1
+                                    if not ctx.mine(k):
+                                        continue
+                                    if field == 'point' and (icls.startswith('line') or icls.startswith('extreme')):
+                                        continue
+                                    done += 1
+                                    if done % 64 == 0:
+                                        _clear_caches()
+                                    rng = case_rng(ctx, 15, k)
+                                    method = 'mdft' if int(rng.integers(4)) == 0 else 'czt'
+                                    ctx.observe('backend.numpy-fft')
+                                    (_fixed_focus_case if route == 'focus' else _fixed_unfocus_case)(ctx, P, rng, icls, ocls, method, scls, field, hi_in, hi_out, k)
+            # to_fpm_and_back (function; Wavefront form with return_more=True) through czt
+            for k in range(ctx.pick(24, 1200)):
+                if not ctx.mine(k):
+                    continue
+                rng = case_rng(ctx, 16, k)
+                wvl, efl, dx = physical(rng)
+                shp = draw_shape(rng, IN_CLASSES[int(rng.integers(6))], 4, ctx.pick(24, 48))
+                smp = draw_shape(rng, OUT_CLASSES[int(rng.integers(3))], 8, ctx.pick(40, 96))
+                scls = SHIFTS[int(rng.integers(3))]
+                s_ = draw_shift(rng, scls)
+                fdx = wvl * efl / (max(shp) * dx) * logu(rng, 0.2, 3.0)
+                shift = (s_[0] * fdx, s_[1] * fdx)
+                seed = int(rng.integers(2**31 - 1))
+                desc = {'wl': 'backend', 'class': f'backend:numpy.fft:to_fpm_and_back:czt:shift={scls}:{"wf+return_more" if k % 2 else "function"}', 'shape': shp, 'samples': smp,
+                        'wavelength': wvl, 'efl': efl, 'dx': dx, 'fpm_dx': fdx, 'shift_samples': s_, 'seed': seed}
+                CUR = desc
+                ctx.case(desc)
+                ctx.observe('backend.numpy-fft')
+                a = _cfield(seed, shp, 64)
+                mask = rng.random(smp) if seed % 2 else cnormal(rng, smp)
+                key = fixed_key('focus', 'czt', shp, smp, scls != '0')
+                with ctx.guard(_raise_key('czt', key, scls), desc, what=_raise_what('czt', scls)):
+                    if k % 2:
+                        P.Wavefront(a, wvl, dx).to_fpm_and_back(efl, mask, fdx, method='czt', shift=shift, return_more=True)
+                    else:
+                        P.to_fpm_and_back(a, dx, efl, wvl, mask, fdx, shift=shift, method='czt')
+            _clear_caches()
+            # FFT route
+            k = -1
+            for N in (5, 8, 12, 17, 31, 32) + ctx.pick((), tuple(range(33, 65, 3))):
+                for Q in (1, 2, 3, 1.5, 2.5):
+                    for route in ('focus', 'unfocus'):
+                        for field in ('random', 'tilt'):
+                            k += 1
+                            if not ctx.mine(k):
+                                continue
+                            rng = case_rng(ctx, 17, k)
+                            wvl, efl, dx = physical(rng)
+                            Npad = math.ceil(N * Q)
+                            kmax = max(1, N // 2 - 1)
+                            ky, kx = (int(rng.integers(-kmax, kmax + 1)) for _ in range(2))
+                            if kx == 0 and ky == 0:
+                                kx = 1
+                            if rng.random() < 0.5:
+                                kx, ky = ((0, ky or 1) if rng.random() < 0.5 else (kx or -1, 0))
+                            seed = int(rng.integers(2**31 - 1))
+                            desc = {'wl': 'backend', 'route': route, 'N': N, 'Q': Q, 'field': field, 'wavelength': wvl, 'efl': efl, 'dx': dx, 'k': (kx, ky), 'seed': seed,
+                                    'class': f'backend:numpy.fft:fft:{route}:{parity(N)}->{parity(Npad)}:{_qclass(Q)}:{field}'}
+                            CUR = desc
+                            ctx.case(desc)
+                            ctx.observe('backend.numpy-fft')
+                            key = f'C03/Wavefront.{route}/fft/{_qclass(Q)}' + KEYTAG
+                            with ctx.guard(key, desc):
+                                (_fft_focus_case if route == 'focus' else _fft_unfocus_case)(ctx, P, desc, key, N, Q, Npad, field, wvl, efl, dx, kx, ky, seed)
+    finally:
+        KEYTAG = ''
+        CUR = None
+        _clear_caches()
+
+
+class _Meta:
+    """The metadata the HARNESS knows a wavefront to have (stands in for `self` in the FFT-route contract)."""
+    def __init__(self, dx, wavelength):
+        self.dx, self.wavelength = dx, wavelength
+
+
+def _preop(P, rng, wf, name):
+    """One metadata-preserving operation; returns the object the caller goes on with (the RETURNED one)."""
+    shp = wf.data.shape
+    d0, d1 = int(rng.integers(0, 9)), int(rng.integers(0, 9))
+    if shp[0] == shp[1]:
+        d1 = d0                                          # a square array stays square (the FFT route carries one dx)
+    if name == 'pad2d(Q,inplace=False)':
+        return wf.pad2d([2, 3, 1.5][int(rng.integers(3))], inplace=False)
+    if name == 'pad2d(out_shape=,inplace=False)':
+        return wf.pad2d(2, out_shape=(shp[0] + 1 + d0, shp[1] + 1 + d1), inplace=False)
+    if name == 'pad2d(Q,inplace=True)':
+        return wf.pad2d(2)
+    if name == 'pad2d(Q,value=,inplace=False)':
+        return wf.pad2d(2, value=0.25, mode='constant', out_shape=None, inplace=False)
+    if name == 'crop(inplace=False)':
+        return wf.crop((max(4, shp[0] - d0 % 3), max(4, shp[1] - d1 % 3)), inplace=False)
+    if name == 'crop(inplace=True)':
+        return wf.crop((max(4, shp[0] - d0 % 3), max(4, shp[1] - d1 % 3)))
+    if name == 'copy()':
+        return wf.copy()
+    if name == '*ndarray':
+        return wf * (0.5 + rng.random(shp))
+    if name == '*Wavefront':
+        return wf * P.Wavefront(0.5 + rng.random(shp) + 0j, wf.wavelength, wf.dx, wf.space)
+    if name == '+Wavefront':
+        return wf + P.Wavefront(cnormal(rng, shp), wf.wavelength, wf.dx, wf.space)
+    raise KeyError(name)
+
+
+PREOPS = ['pad2d(Q,inplace=False)', 'pad2d(out_shape=,inplace=False)', 'crop(inplace=False)', 'pad2d(Q,value=,inplace=False)', 'pad2d(Q,inplace=True)',
+          'crop(inplace=True)', 'copy()', '*ndarray', '*Wavefront', '+Wavefront']
+
+
+def _op_label(name):
+    return name.replace('(Q,', '(').replace('(out_shape=,', '(').replace('value=,', '')
+
+
+def _meta_is(wf, dx, wvl, space):
+    try:
+        return abs(float(wf.dx) - dx) <= 1e-12 * dx and abs(float(wf.wavelength) - wvl) <= 1e-12 * wvl and wf.space == space
+    except Exception:
+        return False
+
+
+def wl_chains(ctx):
+    """Class M: the object RETURNED by pad2d / crop (out of place and in place), copy and arithmetic is consumed by a propagation;
+    the propagation is judged with the wavelength / spacing the harness put in at the start of the chain."""
+    global CUR, KEYTAG
+    from prysm import propagation as P
+    from prysm.coordinates import make_xy_grid
+    n = ctx.pick(480, 96000)
+    try:
+        for k in range(n):
+            if not ctx.mine(k):
+                continue
+            if (k // ctx.nshards) % 64 == 63:
+                _clear_caches()
+            rng = case_rng(ctx, 18, k)
+            wvl, efl, dx = physical(rng)
+            if abs(math.log(dx / wvl)) < 0.05:
+                dx *= 1.5                                   # dx == wavelength numerically would hide a transposition
+            space = ('pupil', 'pupil', 'psf')[k % 3]
+            term = ('fft', 'mdft', 'czt')[(k // 3) % 3]
+            first = PREOPS[(k // 9) % len(PREOPS)]
+            names = [first] + ([PREOPS[int(rng.integers(len(PREOPS)))]] if rng.random() < 0.4 else [])
+            field = 'tilt' if (space == 'pupil' and term != 'czt' and rng.random() < 0.5) else 'random'
+            hi = ctx.pick(16, 40)
+            N = int(rng.integers(6, hi + 1))
+            shp = (N, N) if (term == 'fft' or field == 'tilt' or rng.random() < 0.5) else (N, int(rng.integers(6, hi + 1)))
+            seed = int(rng.integers(2**31 - 1))
+            scls = SHIFTS[int(rng.integers(3))] if term != 'fft' and field == 'random' else '0'
+            s_ = draw_shift(rng, scls)
+            tag = '/after:metadata-preserving-ops'
+            desc = {'wl': 'chains', 'class': f'chain:{space}:{"+".join(names)}->{term}:{field}:shift={scls}', 'shape': shp, 'wavelength': wvl, 'efl': efl, 'dx': dx,
+                    'ops': names, 'terminal': term, 'shift_samples': s_, 'seed': seed}
+            CUR = desc
+            ctx.case(desc)
+            route = 'focus' if space == 'pupil' else 'unfocus'
+            KEYTAG = tag
+            gkey = (f'C03/Wavefront.{route}/fft' if term == 'fft' else f'C03/{route}_fixed_sampling/{term}') + tag
+            with ctx.guard(gkey, desc, what=f'{" -> ".join(names)} -> {route} ({term})'):
+                dx0 = dx if space == 'pupil' else dx * 10.0                     # mm in the pupil, um in the focal plane
+                kx = ky = 0
+                if field == 'tilt':
+                    kmax = max(1, N // 2 - 2)
+                    kx, ky = (int(rng.integers(-kmax, kmax + 1)) for _ in range(2))
+                    if rng.random() < 0.5:
+                        kx, ky = ((0, ky or 1) if rng.random() < 0.5 else (kx or -1, 0))
+                    x, y = make_xy_grid(shp, dx=dx0)
+                    a = np.exp(2j * np.pi * (kx * x + ky * y) / (N * dx0))
+                    desc.update(waves=(kx, ky))
+                else:
+                    a = cnormal(np.random.default_rng(seed), shp)
+                wf = P.Wavefront(a, wvl, dx0, space=space)
+                KEYTAG = ''                                                      # (no propagation happens in the pre-operations)
+                for nm in names:
+                    wf = _preop(P, rng, wf, nm)
+                    if tag.endswith('-ops') and not _meta_is(wf, dx0, wvl, space):
+                        # diagnosis for the key label only (one defect => one label): the first operation after which the object's own
+                        # metadata is no longer what the harness put in; the verdict is the propagation below
+                        tag = '/after:' + _op_label(nm)
+                KEYTAG = tag
+                din = np.array(wf.data, copy=True)
+                ishp = din.shape
+                ctx.observe('chain.metadata-consumed-downstream')
+                if term == 'fft':
+                    if ishp[0] != ishp[1]:
+                        ctx.skip('chain: intermediate array not square (FFT route carries one dx)')
+                        continue
+                    Q = [1, 2, 1.5][int(rng.integers(3))] if field == 'random' else int(rng.integers(1, 3))
+                    desc.update(Q=Q)
+                    out = wf.focus(efl, Q) if route == 'focus' else wf.unfocus(efl, Q)
+                    _check_fft(route, _Meta(dx0, wvl), efl, Q, out, din)          # the contract, with the harness' metadata
+                    if field == 'tilt' and not ((kx * out.data.shape[1]) % N or (ky * out.data.shape[0]) % N):
+                        inten = out.intensity
+                        gx_, gy_ = np.asarray(inten.x), np.asarray(inten.y)
+                        iy, ix = _peak(out.data)
+                        ex, ey = D.tilt_displacement(kx, N * dx0, wvl, efl), D.tilt_displacement(ky, N * dx0, wvl, efl)
+                        tol = 1e-9 * D.psf_spacing(dx0, out.data.shape[1], wvl, efl) * out.data.shape[1]
+                        uniform = all(nm_.startswith(('pad2d(Q,inplace', 'pad2d(out', 'copy')) for nm_ in names)     # the amplitude is still a plane wave over D
+                        if uniform:
+                            ctx.require('tilt->displacement.fft', abs(float(gx_[iy, ix]) - ex) <= tol and abs(float(gy_[iy, ix]) - ey) <= tol,
+                                        f'C03/Wavefront.focus/fft/{_qclass(Q)}' + tag,
+                                        'a tilted pupil padded / copied before Wavefront.focus does not peak at k*lambda*f/D in the reported coordinates', desc,
+                                        peak_xy=(float(gx_[iy, ix]), float(gy_[iy, ix])), expected_xy=(ex, ey), reported_dx=float(out.dx))
+                    if route == 'focus' and (k // 90) % 2:
+                        # length-3 chain: the PSF trimmed out of place, located through its reported dx, then back to the pupil
+                        m_ = out.data.shape[0]
+                        psf_dx = D.psf_spacing(dx0, m_, wvl, efl)
+                        trimmed = out.crop(max(4, m_ - int(rng.integers(1, m_ // 2))), inplace=False)
+                        if tag.endswith('-ops'):
+                            KEYTAG = '/after:focus+crop' if _meta_is(trimmed, psf_dx, wvl, 'psf') else '/after:crop(inplace=False)'
+                        tdin = np.array(trimmed.data, copy=True)
+                        back = trimmed.unfocus(efl, 1)
+                        ctx.observe('chain.metadata-consumed-downstream')
+                        _check_fft('unfocus', _Meta(psf_dx, wvl), efl, 1, back, tdin)
+                else:
+                    crit = wvl * efl / (max(ishp) * dx0)
+                    odx = crit * logu(rng, 0.3, 2.5)
+                    if field == 'tilt':
+                        r = [0.25, 0.5, 1.0][int(rng.integers(3))]
+                        odx = r * wvl * efl / (N * dx0)
+                    samples = draw_shape(rng, OUT_CLASSES[int(rng.integers(3))], 8, ctx.pick(40, 80))
+                    shift = (s_[0] * odx, s_[1] * odx)
+                    f = wf.focus_fixed_sampling if route == 'focus' else wf.unfocus_fixed_sampling
+                    out = f(efl, odx, samples, shift=shift, method=term)
+                    desc.update(samples=samples, output_dx=odx)
+                    _check_fixed(route, {'wavefunction': din, 'input_dx': dx0, 'prop_dist': efl, 'wavelength': wvl, 'output_dx': odx, 'output_samples': samples,
+                                         'shift': shift, 'method': term}, out.data)
+                    ok_meta = abs(float(out.dx) - odx) <= 1e-14 * odx and abs(float(out.wavelength) - wvl) <= 1e-14 * wvl
+                    ctx.require('chain.metadata-consumed-downstream', ok_meta, f'C03/Wavefront.{route}_fixed_sampling/reported-metadata' + tag,
+                                f'Wavefront.{route}_fixed_sampling: the result does not carry the requested spacing and the wavelength of the light', desc,
+                                got=(float(out.dx), float(out.wavelength)), expected=(odx, wvl))
+        # the three Wavefronts of to_fpm_and_back(return_more=True), each consumed by a later propagation
+        for k in range(ctx.pick(24, 2400)):
+            if not ctx.mine(k):
+                continue
+            rng = case_rng(ctx, 19, k)
+            wvl, efl, dx = physical(rng)
+            N = int(rng.integers(6, ctx.pick(16, 32) + 1))
+            M = int(rng.integers(8, ctx.pick(32, 64) + 1))
+            method = METHODS[k % 2]
+            fdx = wvl * efl / (N * dx) * logu(rng, 0.3, 2.0)
+            seed = int(rng.integers(2**31 - 1))
+            tag = '/after:to_fpm_and_back(arg:return_more=True)'
+            desc = {'wl': 'chains', 'class': f'chain:to_fpm_and_back(return_more=True):{method}:{("next-pupil", "at-fpm", "after-fpm")[(k // 2) % 3]}', 'shape': (N, N),
+                    'samples': (M, M), 'wavelength': wvl, 'efl': efl, 'dx': dx, 'fpm_dx': fdx, 'seed': seed}
+            CUR = desc
+            ctx.case(desc)
+            with ctx.guard(f'C03/Wavefront.to_fpm_and_back/{method}' + tag, desc):
+                a = cnormal(np.random.default_rng(seed), (N, N))
+                mask = rng.random((M, M))
+                trio = P.Wavefront(a, wvl, dx).to_fpm_and_back(efl, mask, fdx, method=method, return_more=True)
+                which = (k // 2) % 3
+                w = trio[which]
+                din = np.array(w.data, copy=True)
+                KEYTAG = tag
+                ctx.observe('chain.metadata-consumed-downstream')
+                if which == 0:
+                    Q = (1, 2)[k % 2]
+                    _check_fft('focus', _Meta(dx, wvl), efl, Q, w.focus(efl, Q), din)
+                else:
+                    Q = (1, 2)[(k // 6) % 2]
+                    _check_fft('unfocus', _Meta(fdx, wvl), efl, Q, w.unfocus(efl, Q), din)
+                KEYTAG = ''
+    finally:
+        KEYTAG = ''
+        CUR = None
+        _clear_caches()
 
 
 def replay(ctx, rec):
